@@ -182,8 +182,17 @@ GROUPS["bvf_conv_bvf"] = dict(name="bvf_conv_bvf", prelude=lambda ctx: BVF_PRELU
     items=lambda ctx: BVF_BASE + rhs_bvf_items(ctx) + stub(BVF_CORE) + verify(["bvf.try_from_bvf"]))
 
 def src_bvf_prelude(ctx):
-    """vocabulary of a Bvf<J,_> SOURCE inside a Bvd (u64) file"""
-    return (["bvf.rs"] if ctx["J"] == "u64" else []) + rhs_bvf_prelude(ctx)
+    """vocabulary of a Bvf<J,_> SOURCE/operand inside a Bvd (u64) file"""
+    same = ["bvf.rs"] + (["bvf_val.rs"] if "SGN" in ctx else [])
+    return (same if ctx["J"] == "u64" else []) + rhs_bvf_prelude(ctx)
+def src_bvf_items(ctx):
+    return [("decl", "decl.Bvf")] + rhs_bvf_items(ctx) + [("stub", "bvf.len", {"I": "{J}", "X": "{XJ}"})]
+GROUPS["bvd_bitops_bvf"] = dict(name="bvd_bitops_bvf", features="#![feature(allocator_api)]",
+    prelude=lambda ctx: BVD_PRELUDE + src_bvf_prelude(ctx),
+    items=lambda ctx: BVD_BASE + src_bvf_items(ctx) + stub(BVD_CORE) + verify(["bvd.binop_bvf"]))
+GROUPS["bvd_arith_bvf"] = dict(name="bvd_arith_bvf", features="#![feature(allocator_api)]",
+    prelude=lambda ctx: BVD_VAL_PRELUDE + src_bvf_prelude(ctx) + ["bvd_arith.rs"],
+    items=lambda ctx: BVD_BASE + src_bvf_items(ctx) + stub(BVD_CORE) + verify(["bvd.addsub_bvf"]))
 GROUPS["bvd_conv_bvf"] = dict(name="bvd_conv_bvf", features="#![feature(allocator_api)]",
     prelude=lambda ctx: BVD_PRELUDE + src_bvf_prelude(ctx),
     items=lambda ctx: BVD_BASE + [("decl", "decl.Bvf")] + rhs_bvf_items(ctx) + [("stub", "bvf.len", {"I": "{J}", "X": "{XJ}"})] + stub(BVD_CORE) + verify(["bvd.from_bvf"]))
@@ -216,6 +225,12 @@ def rhs_bvd_items(ctx):
 GROUPS["bvf_bitops_bvd"] = dict(name="bvf_bitops_bvd", features="#![feature(allocator_api)]",
     prelude=lambda ctx: BVF_PRELUDE + rhs_bvd_prelude(ctx),
     items=lambda ctx: BVF_BASE + rhs_bvd_items(ctx) + stub(BVF_CORE) + verify(["bvf.binop_bvd"]))
+
+def rhs_bvd_val_prelude(ctx):
+    return rhs_bvd_prelude(ctx) + [("bvd_val.rs", {"X": "{XD}"})]
+GROUPS["bvf_arith_bvd"] = dict(name="bvf_arith_bvd", features="#![feature(allocator_api)]",
+    prelude=lambda ctx: WORD_PRELUDE + ["conv_std.rs"] + VALUE_PRELUDE + ["bvf.rs", "bvf_val.rs"] + rhs_bvd_val_prelude(ctx) + ["bvf_arith_v.rs"],
+    items=lambda ctx: BVF_BASE + rhs_bvd_items(ctx) + stub(BVF_CORE) + verify(["bvf.addsub_bvd"]))
 
 GROUPS["bvf_conv_bvd"] = dict(name="bvf_conv_bvd", features="#![feature(allocator_api)]",
     prelude=lambda ctx: BVF_PRELUDE + rhs_bvd_prelude(ctx),
@@ -378,6 +393,12 @@ PROPS["C19"]["thorough"] += CONV_T
 PROPS["C18"]["quick"] += [("bvd_conv_bvf", pair("u64", "u64"))]
 PROPS["C18"]["thorough"] += [("bvd_conv_bvf", pair("u64", j)) for j in W4]
 
+PROPS["C04"]["quick"] += [("bvd_bitops_bvf", pair("u64", j, **BITOPS[o])) for j in WQ for o in ("and", "or", "xor")]
+PROPS["C04"]["thorough"] += [("bvd_bitops_bvf", pair("u64", j, **BITOPS[o])) for j in W4 for o in ("and", "or", "xor")]
+MIXED_ARITH_Q = [("bvf_arith_bvd", dctx(i, **ARITH[o])) for i in WQ for o in ("add", "sub")] + [("bvd_arith_bvf", pair("u64", j, **ARITH_D[o])) for j in WQ for o in ("add", "sub")]
+MIXED_ARITH_T = [("bvf_arith_bvd", dctx(i, **ARITH[o])) for i in W4 for o in ("add", "sub")] + [("bvd_arith_bvf", pair("u64", j, **ARITH_D[o])) for j in W4 for o in ("add", "sub")]
+PROPS["C01"]["quick"] += MIXED_ARITH_Q
+PROPS["C01"]["thorough"] += MIXED_ARITH_T
 BVD_ARITH_JOBS = [("bvd_arith", dict(U64, **ARITH_D[o])) for o in ("add", "sub")]
 PROPS["C01"]["quick"] += BVD_ARITH_JOBS
 PROPS["C01"]["thorough"] += BVD_ARITH_JOBS
@@ -475,9 +496,9 @@ dyn_only("C20", "every owned/borrowed/assign form of + - * / % & | ^ << >> ! and
 MANIFEST_TEXT["C01"] = dict(
     text=("Proof (add/sub): the real bodies of AddAssign/SubAssign<&Bvf<I2,N2>> for Bvf<I1,N1> (both the same-word-size branch and the re-chunking branch through get_int) are verified against the VALUE-level contract "
           "val(result) == (val(a) +/- val(b)) mod 2^len, len unchanged, storage beyond len zero, on top of verified contracts of the word primitives cadd/csub/wmul/mask and of the carry-chain/bridge lemmas (spec/prelude/value*.rs)." + DYN_NOTE),
-    note=(COVER_BVF.replace("and the Bvd implementation (symbolic word count, spare capacity included), ", "") + "Also verified: Bvd += / -= &Bvd (two-step overflowing_add/sub carry chain, symbolic word count, spare capacity). Not yet under contract: multiplication, Bv left operands, mixed Bvf/Bvd operands, native right operands (covered only by the second engine). " + TRUST_NOTE))
+    note=(COVER_BVF.replace("and the Bvd implementation (symbolic word count, spare capacity included), ", "") + "Also verified: Bvd += / -= &Bvd (two-step overflowing_add/sub carry chain, symbolic word count, spare capacity), Bvf += / -= &Bvd and Bvd += / -= &Bvf (operand re-chunked through get_int). Not yet under contract: multiplication, Bv operands (dispatch), native right operands (covered only by the second engine). " + TRUST_NOTE))
 MANIFEST_TEXT["C04"] = dict(
     text=("Proof: BitAnd/BitOr/BitXorAssign<&Bvf<I2,N2>> for Bvf<I1,N1> (both branches), the same three for Bvd with a &Bvd operand, Not for Bvf/&Bvf/Bvd are verified against the bit-by-bit contract with the right operand zero-extended and ignored beyond len; wf of the result is the 'no bit of b at index >= n influences later observations' clause." + DYN_NOTE),
-    note=(COVER_BVF + "Also verified: Bvf op= &Bvd (operand read in chunks of the left word type through Bvd's get_int). Not yet under contract: &Bv/native right operands, &Bvf operand of Bvd, Not for &Bvd, Bv dispatch (covered only by the second engine). " + TRUST_NOTE))
+    note=(COVER_BVF + "Also verified: Bvf op= &Bvd and Bvd op= &Bvf (operand read in chunks of the left word type through get_int). Not yet under contract: &Bv/native right operands, Not for &Bvd, Bv dispatch (covered only by the second engine). " + TRUST_NOTE))
 for _p in ("C05", "C06", "C07", "C08", "C16", "C18", "C19"):
     MANIFEST_TEXT[_p]["text"] += DYN_NOTE
